@@ -280,6 +280,10 @@ func (env *SpecEnv) specEq(l, r Val, at SExpr) Term {
 		if a.T.Sort != b.T.Sort {
 			env.fail("== between sorts %s and %s in %s", a.T.Sort, b.T.Sort, specString(at))
 		}
+		if a.T.Sort == SStr && !strings.Contains(a.T.S, "!q") && !strings.Contains(b.T.S, "!q") && a.T.S != b.T.S {
+			// extensionality instance for the two compared byte strings (a valid axiom instance)
+			in.assumeGlobal(strExtAxiom(a.T, b.T))
+		}
 		return Eq(a.T, b.T)
 	case ArrV:
 		b, ok := r.(ArrV)
@@ -656,6 +660,18 @@ func (env *SpecEnv) evalCall(x *SCall) Val {
 			return ArrV{T: arr}
 		}
 		return ArrV{T: App("ashift", ArrSort(SInt), arr, off)}
+	case "hexenc", "hexdec":
+		argn(1)
+		in.declareHex()
+		return Sc{App(map[string]string{"hexenc": "hex_enc", "hexdec": "hex_dec"}[name], SStr, env.asStr(env.eval(x.Args[0])))}
+	case "hexok":
+		argn(1)
+		in.declareHex()
+		return Sc{App("hex_ok", SBool, env.asStr(env.eval(x.Args[0])))}
+	case "checksum":
+		argn(2)
+		in.declareChecksum()
+		return Sc{App("checksum", SStr, env.asStr(env.eval(x.Args[0])), env.evalInt(x.Args[1]))}
 	case "hasprefix":
 		argn(2)
 		return Sc{in.hasPrefixUF(env.asStr(env.eval(x.Args[0])), env.asStr(env.eval(x.Args[1])))}
